@@ -5,7 +5,9 @@ import PyYetiVerif.Props.C02e
 `colSU_solves`, `colFD_solves`: for the functions the driver runs (`colSU`, `colFD` of
 `Model/FreqSolve.lean`: constructor state, block solves, scatter), with `incrb = "dva"`,
 `rf_disp_only = False`, `Ω ≠ 0`: whatever column is returned satisfies the full-size
-block-diagonal-by-partition equation `partStiff · d = F` on every row, with `v = iΩd`, `a = −Ω²d`.
+block-diagonal-by-partition equation `partStiff · d = F` on every row, with `v = iΩd`, `a = −Ω²d`;
+for `SolveUnc` the rigid-body block is `iΩ B − Ω² M` on the uncoupled path (damped rigid-body modes,
+repaired code) and `−Ω² M` on the coupled path (`ColEnv.rbDamping`).
 Everything is proved except the eigen-decomposition of the coupled elastic block, which stays a
 hypothesis (`hcoup`, the relations of `frfCoupled_solves`).
 `fd_incrb_rows`: the `d[self.rb] = 0` … statements of `FreqDirect.fsolve` touch the rigid-body rows
@@ -101,7 +103,7 @@ theorem colFD_solves (e : ColEnv α) (hz : ∀ x, e.isZero x = true ↔ x = 0)
     (sol : List (Dva α)) (h : colFD e L F w = .ok sol) :
     ∀ r, r < L.n →
       ((List.range L.n).map fun c =>
-        partStiff e.i w e.M e.B e.K [] L.nonrf L.rf r c * (rowOf sol c).d).sum = F r ∧
+        partStiff e.i w e.M e.B e.B e.K [] L.nonrf L.rf r c * (rowOf sol c).d).sum = F r ∧
       (rowOf sol r).v = e.i * w * (rowOf sol r).d ∧ (rowOf sol r).a = -(w * w) * (rowOf sol r).d := by
   have hperm' : (([] : List Nat) ++ L.nonrf ++ L.rf).Perm (List.range L.n) := by simpa using hperm
   have hnd : (L.nonrf ++ L.rf).Nodup := hperm.nodup_iff.2 List.nodup_range
@@ -120,12 +122,12 @@ theorem colFD_solves (e : ColEnv α) (hz : ∀ x, e.isZero x = true ↔ x = 0)
         sol = assemble L.n L.rf vrf [] [] L.nonrf vk →
         ∀ r, r < L.n →
           ((List.range L.n).map fun c =>
-            partStiff e.i w e.M e.B e.K [] L.nonrf L.rf r c * (rowOf sol c).d).sum = F r ∧
+            partStiff e.i w e.M e.B e.B e.K [] L.nonrf L.rf r c * (rowOf sol c).d).sum = F r ∧
           (rowOf sol r).v = e.i * w * (rowOf sol r).d ∧
           (rowOf sol r).a = -(w * w) * (rowOf sol r).d := by
       intro vk hlk hkeq hkva hsol r hr
       subst hsol
-      refine ⟨fsolve_full_solves L.n e.i w e.M e.B e.K F [] L.nonrf L.rf hperm' [] vk vrf rfl
+      refine ⟨fsolve_full_solves L.n e.i w e.M e.B e.B e.K F [] L.nonrf L.rf hperm' [] vk vrf rfl
         hlk.symm hlrf.symm (fun r hr => by cases hr) hkeq hrfeq r hr, ?_⟩
       exact fsolve_full_va L.n e.i w [] L.nonrf L.rf hperm' [] vk vrf rfl hlk.symm hlrf.symm
         (fun x hx => by
@@ -153,10 +155,115 @@ theorem colFD_solves (e : ColEnv α) (hz : ∀ x, e.isZero x = true ↔ x = 0)
         rw [← h, hinc, modifyRows_id _ (fun x => by simp [applyIncrb, Incrb.all])]
         rfl
 
+/-- the elastic block of `SolveUnc.fsolve` on either path (`_solve_freq_unc`: closed form on the rows
+`b[_el]`, `k[_el]`, `m[_el]`; `_solve_freq_coup`: complex modes on the shrunk `kdof`) for every `Ω`: it is
+written to `el`, one value per row, and satisfies `(K − Ω²M + iΩB)[el,el] d = F[el]`, `v = iΩd`,
+`a = −Ω²d` -/
+theorem elValsSU_solves (e : ColEnv α) (hz : ∀ x, e.isZero x = true ↔ x = 0)
+    (L : Layout) (hrbg : gather L.nonrf L.rb_ = some L.rb) (helg : gather L.nonrf L.el_ = some L.el)
+    (hndel : L.el.Nodup)
+    (uncReal : Bool) (huc : uncReal = true → e.unc = true)
+    (st : SuState) (hst : suInit L (!uncReal) e.mNone = some st)
+    (eig : Option (EigData α st.kdof.length)) (F : Nat → α) (w : α)
+    (hi : e.i * e.i = -1)
+    (hmn : e.mNone = true → ∀ r c, e.M r c = if r = c then 1 else 0)
+    (hunc : e.unc = true → (∀ r c, r ≠ c → e.M r c = 0 ∧ e.B r c = 0 ∧ e.K r c = 0) ∧
+      ∀ r ∈ L.el, e.i * (e.B r r * w) + e.K r r - e.M r r * (w * w) ≠ 0)
+    (hcoup : e.unc = false → ∀ ed, eig = some ed →
+      ∃ Uv : Fin st.kdof.length → Fin ed.s → α,
+        of (fun p q : Fin st.kdof.length => e.M st.kdof[p] st.kdof[q]) * (of Uv * diagonal ed.lam)
+          + of (fun p q : Fin st.kdof.length => e.B st.kdof[p] st.kdof[q]) * of Uv
+          + of (fun p q : Fin st.kdof.length => e.K st.kdof[p] st.kdof[q]) * of ed.urd = 0 ∧
+        of Uv = of ed.urd * diagonal ed.lam ∧ of Uv * of ed.urinvv = 1 ∧
+        of ed.urd * of ed.urinvv = 0 ∧ ∀ j, e.i * w - ed.lam j ≠ 0)
+    (rows : List Nat) (vel : List (Dva α)) (hel : elValsSU e st eig F w = .ok (rows, vel)) :
+    rows = L.el ∧ vel.length = L.el.length ∧
+      (∀ r ∈ L.el, blockSum (fun r c => e.i * e.B r c * w + e.K r c - e.M r c * (w * w)) L.el
+        (vel.map (·.d)) r = F r) ∧
+      ∀ x ∈ vel, x.v = e.i * w * x.d ∧ x.a = -(w * w) * x.d := by
+  obtain ⟨st', hst', hlay, helr, hE, hN, hmr⟩ := imrb_correct L hrbg helg (!uncReal) e.mNone
+  have : st' = st := Option.some.inj (hst'.symm.trans hst)
+  subst this
+  have hellen := gather_length _ _ _ helg
+  unfold elValsSU at hel
+  rw [hlay] at hel
+  by_cases hu : e.unc = true
+  · simp only [hu, if_true] at hel
+    by_cases hee : L.el = []
+    · simp only [hee, List.isEmpty_nil, if_true, Except.ok.injEq, Prod.mk.injEq] at hel
+      obtain ⟨h1, h2⟩ := hel
+      subst h1 h2
+      simp [hee]
+    · have hee' : L.el.isEmpty = false := by
+        cases hn : L.el with
+        | nil => exact absurd hn hee
+        | cons _ _ => rfl
+      simp only [hee', Bool.false_eq_true, if_false, helr] at hel
+      cases hv : elValsUnc e L.el L.el F w with
+      | error m => rw [hv] at hel; cases hel
+      | ok v =>
+        rw [hv] at hel
+        simp only [Except.map, Except.ok.injEq, Prod.mk.injEq] at hel
+        obtain ⟨h1, h2⟩ := hel
+        subst h1 h2
+        obtain ⟨a, b, c⟩ := elBlockUnc_solves e L.el hndel F w
+          (fun r _ c _ hne => (hunc hu).1 r c hne)
+          (fun hm r _ => by rw [hmn hm r r]; simp) (hunc hu).2 v hv
+        exact ⟨rfl, a, b, c⟩
+  · have hu' : e.unc = false := by simpa using hu
+    have hur : uncReal = false := by
+      cases hx : uncReal
+      · rfl
+      · exact absurd (huc hx) hu
+    simp only [hu', Bool.false_eq_true, if_false] at hel
+    -- `kdof`, `mRows` have been shrunk to `el`
+    have hk : st'.kdof = L.el ∧ st'.mRows = st'.kdof := by
+      by_cases hne : L.nonrf = []
+      · have h0 : L.el = [] := by
+          cases hq : L.el_ with
+          | nil =>
+            rw [hq] at hellen
+            exact List.eq_nil_of_length_eq_zero (by simpa using hellen)
+          | cons p ps => rw [hq, hne, gather_cons] at helg; simp at helg
+        have := hst'
+        simp only [suInit, hne, List.isEmpty_nil, if_true, Option.some.injEq] at this
+        subst this
+        exact ⟨by simp [h0, hne], rfl⟩
+      · obtain ⟨a, b, _⟩ := hE (by simp [hur]) hne
+        exact ⟨a, by rw [a, b]⟩
+    by_cases hke : st'.kdof = []
+    · simp only [hke, List.isEmpty_nil, if_true, Except.ok.injEq, Prod.mk.injEq] at hel
+      obtain ⟨h1, h2⟩ := hel
+      subst h1 h2
+      have : L.el = [] := by rw [← hk.1, hke]
+      simp [this]
+    · have hke' : st'.kdof.isEmpty = false := by
+        cases hn : st'.kdof with
+        | nil => exact absurd hn hke
+        | cons _ _ => rfl
+      simp only [hke', Bool.false_eq_true, if_false] at hel
+      cases hed : eig with
+      | none => simp only [hed] at hel; cases hel
+      | some ed =>
+        simp only [hed] at hel
+        rw [hk.2] at hel
+        cases hv : elValsCoup e st'.kdof st'.kdof ed.lam ed.urd ed.urinvv F w with
+        | error m => rw [hv] at hel; cases hel
+        | ok v =>
+          rw [hv] at hel
+          simp only [Except.map, Except.ok.injEq, Prod.mk.injEq] at hel
+          obtain ⟨h1, h2⟩ := hel
+          subst h1 h2
+          obtain ⟨Uv, htop, hbot, hU1, hU2, hH⟩ := hcoup hu' ed hed
+          obtain ⟨a, b, c⟩ := elBlockCoup_solves e hz st'.kdof (hk.1 ▸ hndel) ed.lam
+            ed.urd ed.urinvv Uv F w (fun hm r _ c _ => hmn hm r c) htop hbot hU1 hU2 hH hi v hv
+          rw [hk.1] at a b
+          exact ⟨hk.1, a, b, c⟩
+
 /-- **one column of `SolveUnc.fsolve`** (`incrb = "dva"`, `rf_disp_only = False`, `Ω ≠ 0`), from the
-constructor state to the assembled column: combines `imrb_correct`, `rfBlock_solves`,
-`rbBlock_solves`, `elBlockUnc_solves` / `elBlockCoup_solves`, `scatter_covers` and
-`fsolve_full_solves`. -/
+constructor state to the assembled column: combines `imrb_correct`, `rbDampRows_correct`,
+`rfBlock_solves`, `rbBlock_solves`, `elValsSU_solves` (`elBlockUnc_solves` / `elBlockCoup_solves`),
+`scatter_covers` and `fsolve_full_solves`. -/
 theorem colSU_solves (e : ColEnv α) (hz : ∀ x, e.isZero x = true ↔ x = 0)
     (L : Layout) (hrbg : gather L.nonrf L.rb_ = some L.rb) (helg : gather L.nonrf L.el_ = some L.el)
     (hperm : (L.rb ++ L.el ++ L.rf).Perm (List.range L.n))
@@ -167,6 +274,7 @@ theorem colSU_solves (e : ColEnv α) (hz : ∀ x, e.isZero x = true ↔ x = 0)
     (hmn : e.mNone = true → ∀ r c, e.M r c = if r = c then 1 else 0)
     (hunc : e.unc = true → (∀ r c, r ≠ c → e.M r c = 0 ∧ e.B r c = 0 ∧ e.K r c = 0) ∧
       (∀ r ∈ L.rf, e.K r r ≠ 0) ∧ (∀ r ∈ L.rb, e.M r r ≠ 0) ∧
+      (∀ r ∈ L.rb, -(w * w) * e.M r r + e.i * w * e.B r r ≠ 0) ∧
       ∀ r ∈ L.el, e.i * (e.B r r * w) + e.K r r - e.M r r * (w * w) ≠ 0)
     (hcoup : e.unc = false → ∀ ed, eig = some ed →
       ∃ Uv : Fin st.kdof.length → Fin ed.s → α,
@@ -178,7 +286,7 @@ theorem colSU_solves (e : ColEnv α) (hz : ∀ x, e.isZero x = true ↔ x = 0)
     (sol : List (Dva α)) (h : colSU e st uncReal eig F w = .ok sol) :
     ∀ r, r < L.n →
       ((List.range L.n).map fun c =>
-        partStiff e.i w e.M e.B e.K L.rb L.el L.rf r c * (rowOf sol c).d).sum = F r ∧
+        partStiff e.i w e.M e.rbDamping e.B e.K L.rb L.el L.rf r c * (rowOf sol c).d).sum = F r ∧
       (rowOf sol r).v = e.i * w * (rowOf sol r).d ∧ (rowOf sol r).a = -(w * w) * (rowOf sol r).d := by
   obtain ⟨st', hst', hlay, helr, hE, hN, hmr⟩ := imrb_correct L hrbg helg (!uncReal) e.mNone
   have : st' = st := Option.some.inj (hst'.symm.trans hst)
@@ -186,7 +294,6 @@ theorem colSU_solves (e : ColEnv α) (hz : ∀ x, e.isZero x = true ↔ x = 0)
   have hnd : (L.rb ++ L.el ++ L.rf).Nodup := hperm.nodup_iff.2 List.nodup_range
   have hnd1 := List.nodup_append.1 hnd
   have hnd2 := List.nodup_append.1 hnd1.1
-  have hellen := gather_length _ _ _ helg
   unfold colSU at h
   rw [hlay] at h
   cases hrf : rfVals e L.rf F w with
@@ -203,100 +310,26 @@ theorem colSU_solves (e : ColEnv α) (hz : ∀ x, e.isZero x = true ↔ x = 0)
         (fun hm hne => by
           have := hmr hm (hlay ▸ hne)
           rw [hlay]; simpa using this)
+        (fun _ => by
+          have := rbDampRows_correct L hrbg helg (!uncReal) e.mNone st' hst'
+          rw [hlay]; simpa using this)
         (hlay ▸ hnd2.1) F w hw hinc
         (fun hm r _ c _ => hmn hm r c)
-        (fun _ hu => ⟨fun r _ c _ hne => ((hunc hu).1 r c hne).1,
-          fun r hr => (hunc hu).2.2.1 r (hlay ▸ hr)⟩) vrb hrb
+        (fun hu => ⟨fun r _ c _ hne => ⟨((hunc hu).1 r c hne).1, ((hunc hu).1 r c hne).2.1⟩,
+          fun r hr => (hunc hu).2.2.1 r (hlay ▸ hr),
+          fun r hr => (hunc hu).2.2.2.1 r (hlay ▸ hr)⟩) vrb hrb
       rw [hlay] at hlrb hrbeq
       cases hel : elValsSU e st' eig F w with
       | error m => simp only [hel] at h; cases h
       | ok rv =>
         obtain ⟨rows, vel⟩ := rv
         simp only [hel, Except.ok.injEq] at h
-        -- the elastic block, on either path, is written to `el` and satisfies its equation
-        have hblock : rows = L.el ∧ vel.length = L.el.length ∧
-            (∀ r ∈ L.el, blockSum (fun r c => e.i * e.B r c * w + e.K r c - e.M r c * (w * w)) L.el
-              (vel.map (·.d)) r = F r) ∧
-            ∀ x ∈ vel, x.v = e.i * w * x.d ∧ x.a = -(w * w) * x.d := by
-          unfold elValsSU at hel
-          rw [hlay] at hel
-          by_cases hu : e.unc = true
-          · simp only [hu, if_true] at hel
-            by_cases hee : L.el = []
-            · simp only [hee, List.isEmpty_nil, if_true, Except.ok.injEq, Prod.mk.injEq] at hel
-              obtain ⟨h1, h2⟩ := hel
-              subst h1 h2
-              simp [hee]
-            · have hee' : L.el.isEmpty = false := by
-                cases hn : L.el with
-                | nil => exact absurd hn hee
-                | cons _ _ => rfl
-              simp only [hee', Bool.false_eq_true, if_false, helr] at hel
-              cases hv : elValsUnc e L.el L.el F w with
-              | error m => rw [hv] at hel; cases hel
-              | ok v =>
-                rw [hv] at hel
-                simp only [Except.map, Except.ok.injEq, Prod.mk.injEq] at hel
-                obtain ⟨h1, h2⟩ := hel
-                subst h1 h2
-                obtain ⟨a, b, c⟩ := elBlockUnc_solves e L.el hnd2.2.1 F w
-                  (fun r _ c _ hne => (hunc hu).1 r c hne)
-                  (fun hm r _ => by rw [hmn hm r r]; simp) (hunc hu).2.2.2 v hv
-                exact ⟨rfl, a, b, c⟩
-          · have hu' : e.unc = false := by simpa using hu
-            have hur : uncReal = false := by
-              cases hx : uncReal
-              · rfl
-              · exact absurd (huc hx) hu
-            simp only [hu', Bool.false_eq_true, if_false] at hel
-            -- `kdof`, `mRows` have been shrunk to `el`
-            have hk : st'.kdof = L.el ∧ st'.mRows = st'.kdof := by
-              by_cases hne : L.nonrf = []
-              · have h0 : L.el = [] := by
-                  cases hq : L.el_ with
-                  | nil =>
-                    rw [hq] at hellen
-                    exact List.eq_nil_of_length_eq_zero (by simpa using hellen)
-                  | cons p ps => rw [hq, hne, gather_cons] at helg; simp at helg
-                have := hst'
-                simp only [suInit, hne, List.isEmpty_nil, if_true, Option.some.injEq] at this
-                subst this
-                exact ⟨by simp [h0, hne], rfl⟩
-              · obtain ⟨a, b, _⟩ := hE (by simp [hur]) hne
-                exact ⟨a, by rw [a, b]⟩
-            by_cases hke : st'.kdof = []
-            · simp only [hke, List.isEmpty_nil, if_true, Except.ok.injEq, Prod.mk.injEq] at hel
-              obtain ⟨h1, h2⟩ := hel
-              subst h1 h2
-              have : L.el = [] := by rw [← hk.1, hke]
-              simp [this]
-            · have hke' : st'.kdof.isEmpty = false := by
-                cases hn : st'.kdof with
-                | nil => exact absurd hn hke
-                | cons _ _ => rfl
-              simp only [hke', Bool.false_eq_true, if_false] at hel
-              cases hed : eig with
-              | none => simp only [hed] at hel; cases hel
-              | some ed =>
-                simp only [hed] at hel
-                rw [hk.2] at hel
-                cases hv : elValsCoup e st'.kdof st'.kdof ed.lam ed.urd ed.urinvv F w with
-                | error m => rw [hv] at hel; cases hel
-                | ok v =>
-                  rw [hv] at hel
-                  simp only [Except.map, Except.ok.injEq, Prod.mk.injEq] at hel
-                  obtain ⟨h1, h2⟩ := hel
-                  subst h1 h2
-                  obtain ⟨Uv, htop, hbot, hU1, hU2, hH⟩ := hcoup hu' ed hed
-                  obtain ⟨a, b, c⟩ := elBlockCoup_solves e hz st'.kdof (hk.1 ▸ hnd2.2.1) ed.lam
-                    ed.urd ed.urinvv Uv F w (fun hm r _ c _ => hmn hm r c) htop hbot hU1 hU2 hH hi v hv
-                  rw [hk.1] at a b
-                  exact ⟨hk.1, a, b, c⟩
-        obtain ⟨hrows, hlel, heleq, helva⟩ := hblock
+        obtain ⟨hrows, hlel, heleq, helva⟩ := elValsSU_solves e hz L hrbg helg hnd2.2.1 uncReal huc st'
+          hst' eig F w hi hmn (fun hu => ⟨(hunc hu).1, (hunc hu).2.2.2.2⟩) hcoup rows vel hel
         subst hrows
         subst h
         intro r hr
-        refine ⟨fsolve_full_solves L.n e.i w e.M e.B e.K F L.rb L.el L.rf hperm vrb vel vrf
+        refine ⟨fsolve_full_solves L.n e.i w e.M e.rbDamping e.B e.K F L.rb L.el L.rf hperm vrb vel vrf
           hlrb.symm hlel.symm hlrf.symm hrbeq heleq hrfeq r hr, ?_⟩
         exact fsolve_full_va L.n e.i w L.rb L.el L.rf hperm vrb vel vrf hlrb.symm hlel.symm hlrf.symm
           (fun x hx => by
@@ -305,6 +338,106 @@ theorem colSU_solves (e : ColEnv α) (hz : ∀ x, e.isZero x = true ↔ x = 0)
             · exact hrbva x hx
             · exact helva x hx
             · exact (hrfva x hx).2 hdo) r hr
+
+/-- **one column of `SolveUnc.fsolve` at `Ω = 0`** (`incrb = "dva"`, `rf_disp_only = False`; 0 Hz is in
+the quantifier of the property for `SolveUnc`): on every elastic and residual-flexibility row the
+full-size equation holds — at `Ω = 0` it is the static equation `K d = F` — with `v = a = 0`; on the
+rigid-body rows, where the equation `0 · d = F` has no solution, the column holds the documented
+convention `d = v = 0`, `a = M[rb,rb]⁻¹ F[rb]`, whatever the damping of those modes. -/
+theorem colSU_zero_freq (e : ColEnv α) (hz : ∀ x, e.isZero x = true ↔ x = 0)
+    (L : Layout) (hrbg : gather L.nonrf L.rb_ = some L.rb) (helg : gather L.nonrf L.el_ = some L.el)
+    (hperm : (L.rb ++ L.el ++ L.rf).Perm (List.range L.n))
+    (uncReal : Bool) (huc : uncReal = true → e.unc = true)
+    (st : SuState) (hst : suInit L (!uncReal) e.mNone = some st)
+    (eig : Option (EigData α st.kdof.length)) (F : Nat → α)
+    (hi : e.i * e.i = -1) (hinc : e.inc = Incrb.all) (hdo : e.dispOnly = false)
+    (hmn : e.mNone = true → ∀ r c, e.M r c = if r = c then 1 else 0)
+    (hunc : e.unc = true → (∀ r c, r ≠ c → e.M r c = 0 ∧ e.B r c = 0 ∧ e.K r c = 0) ∧
+      (∀ r ∈ L.rf, e.K r r ≠ 0) ∧ (∀ r ∈ L.rb, e.M r r ≠ 0) ∧
+      ∀ r ∈ L.el, e.i * (e.B r r * 0) + e.K r r - e.M r r * (0 * 0) ≠ 0)
+    (hcoup : e.unc = false → ∀ ed, eig = some ed →
+      ∃ Uv : Fin st.kdof.length → Fin ed.s → α,
+        of (fun p q : Fin st.kdof.length => e.M st.kdof[p] st.kdof[q]) * (of Uv * diagonal ed.lam)
+          + of (fun p q : Fin st.kdof.length => e.B st.kdof[p] st.kdof[q]) * of Uv
+          + of (fun p q : Fin st.kdof.length => e.K st.kdof[p] st.kdof[q]) * of ed.urd = 0 ∧
+        of Uv = of ed.urd * diagonal ed.lam ∧ of Uv * of ed.urinvv = 1 ∧
+        of ed.urd * of ed.urinvv = 0 ∧ ∀ j, e.i * 0 - ed.lam j ≠ 0)
+    (sol : List (Dva α)) (h : colSU e st uncReal eig F 0 = .ok sol) :
+    (∀ r, r < L.n → r ∉ L.rb →
+      ((List.range L.n).map fun c =>
+        partStiff e.i 0 e.M e.rbDamping e.B e.K L.rb L.el L.rf r c * (rowOf sol c).d).sum = F r ∧
+      (rowOf sol r).v = 0 ∧ (rowOf sol r).a = 0) ∧
+    ∃ arb : List α, ∃ hl : L.rb.length = arb.length,
+      (∀ r ∈ L.rb, blockSum e.M L.rb arb r = F r) ∧
+      ∀ q (hq : q < L.rb.length), rowOf sol L.rb[q] = ⟨0, 0, arb[q]'(hl ▸ hq)⟩ := by
+  obtain ⟨st', hst', hlay, helr, hE, hN, hmr⟩ := imrb_correct L hrbg helg (!uncReal) e.mNone
+  have : st' = st := Option.some.inj (hst'.symm.trans hst)
+  subst this
+  have hnd : (L.rb ++ L.el ++ L.rf).Nodup := hperm.nodup_iff.2 List.nodup_range
+  have hnd1 := List.nodup_append.1 hnd
+  have hnd2 := List.nodup_append.1 hnd1.1
+  unfold colSU at h
+  rw [hlay] at h
+  cases hrf : rfVals e L.rf F 0 with
+  | error m => simp only [hrf] at h; cases h
+  | ok vrf =>
+    simp only [hrf] at h
+    obtain ⟨hlrf, hrfeq, hrfva⟩ := rfBlock_solves e hz L.rf hnd1.2.1 F 0 vrf
+      (fun hu => ⟨fun r _ c _ hne => ((hunc hu).1 r c hne).2.2, (hunc hu).2.1⟩) hrf
+    cases hrb : rbVals e st' uncReal F 0 with
+    | error m => simp only [hrb] at h; cases h
+    | ok vrb =>
+      simp only [hrb] at h
+      obtain ⟨hlrb, hrbz, hrbeq⟩ := rbBlock_zero_freq e hz st' uncReal
+        (fun hm hne => by
+          have := hmr hm (hlay ▸ hne)
+          rw [hlay]; simpa using this)
+        (fun _ => by
+          have := rbDampRows_correct L hrbg helg (!uncReal) e.mNone st' hst'
+          rw [hlay]; simpa using this)
+        (hlay ▸ hnd2.1) F hinc
+        (fun hm r _ c _ => hmn hm r c)
+        (fun hu => ⟨fun r _ c _ hne => ⟨((hunc hu).1 r c hne).1, ((hunc hu).1 r c hne).2.1⟩,
+          fun r hr => (hunc hu).2.2.1 r (hlay ▸ hr)⟩) vrb hrb
+      rw [hlay] at hlrb hrbeq
+      cases hel : elValsSU e st' eig F 0 with
+      | error m => simp only [hel] at h; cases h
+      | ok rv =>
+        obtain ⟨rows, vel⟩ := rv
+        simp only [hel, Except.ok.injEq] at h
+        obtain ⟨hrows, hlel, heleq, helva⟩ := elValsSU_solves e hz L hrbg helg hnd2.2.1 uncReal huc st'
+          hst' eig F 0 hi hmn (fun hu => ⟨(hunc hu).1, (hunc hu).2.2.2⟩) hcoup rows vel hel
+        subst hrows
+        subst h
+        obtain ⟨_, _, hgrb, hgel, hgrf⟩ := scatter_covers L.n L.rb L.el L.rf hperm vrb vel vrf
+          hlrb.symm hlel.symm hlrf.symm
+        refine ⟨?_, vrb.map (·.a), by simp [hlrb], hrbeq, ?_⟩
+        · intro r hr hnrb
+          refine ⟨fsolve_full_rows L.n e.i 0 e.M e.rbDamping e.B e.K F L.rb L.el L.rf hperm vrb vel vrf
+            hlrb.symm hlel.symm hlrf.symm heleq hrfeq r hr (fun h => absurd h hnrb), ?_⟩
+          -- `v = i·0·d = 0`, `a = −0·d = 0` on the elastic and residual-flexibility rows
+          have hr' : r ∈ L.rb ++ L.el ++ L.rf := hperm.mem_iff.2 (List.mem_range.2 hr)
+          rcases List.mem_append.1 hr' with hr' | hrrf
+          · rcases List.mem_append.1 hr' with hrrb | hrel
+            · exact absurd hrrb hnrb
+            · obtain ⟨q, hq, rfl⟩ := List.mem_iff_getElem.1 hrel
+              have hx := helva (vel[q]'(hlel.symm ▸ hq)) (List.getElem_mem _)
+              simp only [rowOf, hgel q hq, optRow]
+              rw [hx.1, hx.2]
+              constructor <;> ring
+          · obtain ⟨q, hq, rfl⟩ := List.mem_iff_getElem.1 hrrf
+            have hx := (hrfva (vrf[q]'(hlrf.symm ▸ hq)) (List.getElem_mem _)).2 hdo
+            simp only [rowOf, hgrf q hq, optRow]
+            rw [hx.1, hx.2]
+            constructor <;> ring
+        · intro q hq
+          have hx := hrbz (vrb[q]'(hlrb.symm ▸ hq)) (List.getElem_mem _)
+          simp only [rowOf, hgrb q hq, optRow, List.getElem_map]
+          cases hv : vrb[q]'(hlrb.symm ▸ hq) with
+          | mk d v a =>
+            rw [hv] at hx
+            simp only at hx
+            simp [hx.1, hx.2]
 
 end cols
 
